@@ -116,3 +116,111 @@ Example qualify_nonvacuous :
   so_qualify [65]%N c None = QOk [65]%N (Some 7%N) /\                 (* A, default ns *)
   so_qualify [122; 58; 65]%N c None = QUnresolved.                    (* z:A *)
 Proof. repeat split; reflexivity. Qed.
+
+(* ------------------------------------------------------------------ *)
+(* (4) the concrete schema: what is written vs. what it means           *)
+(* ------------------------------------------------------------------ *)
+From SV Require Import Fam.Schema C01.Marshal C07.Concrete C07.ConcreteProofs.
+
+(* Lookups (elements, types, groups, attribute groups) do not depend on the
+   order in which the consolidated declarations are listed. *)
+Theorem tables_order_independent : forall l l' k q,
+  Permutation l l' -> NoDup (map pkey l) -> lookup_decl k q l = lookup_decl k q l'.
+Proof. exact tables_order_independent_l. Qed.
+Print Assumptions tables_order_independent.
+
+(* Hence every type flattens to the same members, in the same order, whatever
+   the order of the top-level declarations. *)
+Theorem declaration_order_independent : forall T T' f g q,
+  Permutation T T' -> NoDup (map pkey T) -> flat_type T f g q = flat_type T' f g q.
+Proof. exact declaration_order_independent_l. Qed.
+Print Assumptions declaration_order_independent.
+
+(* A model group in place = the same group factored out and referenced. *)
+Theorem group_factoring_invariant : forall T f ns efd anc ch k opt kids q pl gname,
+  lookup_decl KGroup q T = Some pl -> p_decl pl = DGroup gname (CCont k false kids) ->
+  p_ns pl = ns -> p_efd pl = efd ->
+  flat_cp T (S (S f)) ns efd anc ch (CGrp q opt) = flat_cp T (S f) ns efd anc ch (CCont k opt kids).
+Proof. exact group_factoring_invariant_l. Qed.
+Print Assumptions group_factoring_invariant.
+
+(* A qualified element declared in place = a reference to the same global
+   declaration (name, type, nillable, default from the declaration; occurrence
+   from the reference). *)
+Theorem ref_vs_inline_invariant : forall T f ns efd anc ch q pl nm ty nl dflt opt multi form,
+  lookup_decl KElem q T = Some pl -> p_decl pl = DElem nm ty nl dflt ->
+  p_ns pl = ns -> local_qual efd form = true ->
+  flat_cp T (S f) ns efd anc ch (CRef q opt multi) =
+  flat_cp T (S f) ns efd anc ch (CEl nm ty opt multi nl dflt form).
+Proof. exact ref_vs_inline_invariant_l. Qed.
+Print Assumptions ref_vs_inline_invariant.
+
+Theorem attribute_group_factoring_invariant : forall T f q pl gname attrs r,
+  lookup_decl KAGroup q T = Some pl -> p_decl pl = DAGroup gname attrs ->
+  flat_attrs_c T (S f) attrs = Some r ->
+  flat_attrs_c T (S (S f)) [CAGrp q] = Some r.
+Proof. exact attribute_group_factoring_invariant_l. Qed.
+Print Assumptions attribute_group_factoring_invariant.
+
+(* An extension's members are the base's, then its own. *)
+Theorem extension_prepends_base : forall T f g q pl nm b content attrs own oa be ba,
+  lookup_decl KType q T = Some pl -> p_decl pl = DType nm (Some b) content attrs ->
+  flat_cps T g (p_ns pl) (p_efd pl) content = Some own -> flat_attrs_c T g attrs = Some oa ->
+  flat_type T f g b = Some (be, ba) ->
+  flat_type T (S f) g q = Some (be ++ own, ba ++ oa).
+Proof. exact extension_prepends_base_l. Qed.
+Print Assumptions extension_prepends_base.
+
+(* One versus several schema blocks.  The unguarded statement "a global element is
+   qualified wherever it is written" is FALSE of the implementation (and of this
+   model, which keeps the quirk): known finding
+   C07:split-block-global-element-not-top-level. *)
+Theorem global_element_qualified_partial : forall T q pl nm ty nl dflt,
+  lookup_decl KElem q T = Some pl -> p_decl pl = DElem nm ty nl dflt ->
+  (p_first pl || p_efd pl) = true ->
+  global_elem_view T q = Some (p_ns pl, true, ty, nl).
+Proof. exact global_element_qualified_partial_l. Qed.
+Print Assumptions global_element_qualified_partial.
+
+Theorem global_element_later_block_refuted :
+  exists C q, (exists ns nm ty nl dflt efd pre post,
+                  C = pre ++ mkBlock ns efd [DElem nm ty nl dflt] :: post /\ q = (ns, nm)) /\
+              global_elem_view (placed_all C) q = Some (fst q, false, TBuiltin, false).
+Proof. exact global_element_later_block_refuted_l. Qed.
+Print Assumptions global_element_later_block_refuted.
+
+(* A local element takes form=, else the elementFormDefault of the FIRST block of
+   its namespace -- right wherever the blocks of a namespace agree; where they do
+   not: known finding C07:same-namespace-blocks-elementFormDefault. *)
+Theorem local_form_partial : forall T f ns efd anc ch nm ty o m n d fm,
+  flat_cp T (S f) ns efd anc ch (CEl nm ty o m n d fm) =
+  Some [FE (mkE nm ns (match fm with Some b => b | None => efd end) ty o m n d) anc ch].
+Proof. exact local_form_partial_l. Qed.
+Print Assumptions local_form_partial.
+
+Theorem mixed_element_form_default_refuted :
+  type_view efd_counterexample (1, 5)%N =
+  Some ([FE (mkE 8 1 true TBuiltin false false false None) false false], [])%N.
+Proof. exact mixed_element_form_default_refuted_l. Qed.
+Print Assumptions mixed_element_form_default_refuted.
+
+(* non-vacuity: a rendering with a group, an element reference, an attribute group
+   and an extension flattens to what the plain rendering flattens to *)
+Example concrete_nonvacuous :
+  let plain := [mkBlock 1 true
+    [DType 5 None [CCont KSeq false [CEl 10 TBuiltin false false true None None;
+                                     CCont KChoice true [CEl 11 TBuiltin false true false None None]]]
+                  [CAt (mkA 20 true None)];
+     DType 6 (Some (1, 5)) [CCont KSeq false [CEl 12 (TNamed 1 5) true false false None None]] []]]%N in
+  let fancy := [mkBlock 1 true
+    [DType 6 (Some (1, 5)) [CGrp (1, 31) false] [];
+     DGroup 30 (CCont KChoice false [CEl 11 TBuiltin false true false None None]);
+     DElem 10 TBuiltin true None];
+    mkBlock 1 true
+    [DAGroup 32 [CAt (mkA 20 true None)];
+     DGroup 31 (CCont KSeq false [CEl 12 (TNamed 1 5) true false false None (Some true)]);
+     DType 5 None [CCont KSeq false [CRef (1, 10) false false; CGrp (1, 30) true]] [CAGrp (1, 32)]]]%N in
+  type_view plain (1, 6)%N = type_view fancy (1, 6)%N /\
+  type_view plain (1, 5)%N = type_view fancy (1, 5)%N /\
+  exists v, type_view fancy (1, 6)%N = Some v /\ length (fst v) = 3%nat.
+Proof. repeat split. eexists. split; reflexivity. Qed.
